@@ -88,7 +88,7 @@ class Prop(PropBase):
                 elif r < 0.85:
                     off = rng.choice([-1, 1]) * (span * 30 + rng.choice([1e-3, 1.0, 600.0, span * 200.0]))
                 else:
-                    off = rng.choice([0.0, 1.0, -1.0])
+                    off = rng.choice([0.0, 1.0, -1.0, span * 30.0, -span * 30.0, span * 30.0])      # also exactly on the span's edges
                 queries.append([k, off])
             pp = [[rng.randrange(len(entries)), rng.uniform(-span * 30 + 1, span * 30 - 1)] for _ in range(40)]
             # reference times just inside a power of two seconds from TMID: there 1 - dt and -1 - dt fall into different
@@ -373,6 +373,12 @@ class Prop(PropBase):
             t = F(q["t_rel"])
             margin = min(min(abs(t - s), abs(t - e)) for s, e in spans)
             if margin < F(2, 10**6):
+                # on (or within the MJD resolution of) a span edge either neighbour or a refusal is acceptable — but an entry that
+                # is used has to be one whose span reaches the instant (the entry beyond a gap does not)
+                if "err" not in q and "idx" in q:
+                    s_i, e_i = ents[q["idx"]][0] - ents[q["idx"]][1] / 2, ents[q["idx"]][0] + ents[q["idx"]][1] / 2
+                    if not (s_i - F(3, 10**6) <= t <= e_i + F(3, 10**6)):
+                        return f"entry {q['idx']} used for t={float(t)} s (a span edge) does not contain it"
                 continue
             inside = any(s <= t <= e for s, e in spans)
             if not inside and any(a <= t <= b for a, b in merged):
